@@ -453,6 +453,24 @@ func (i *IfUnless) Evaluation(
 	t *base.T,
 ) (err error) {
 
+	// a nested if/unless is evaluated by this same instance: the narrowing
+	// state of the enclosing conditional has to survive it
+	outer := *i
+
+	err = i.evaluate(e, p, ctx, t)
+
+	*i = outer
+
+	return err
+}
+
+func (i *IfUnless) evaluate(
+	e *Evaluator,
+	p *parser.Parser,
+	ctx context.Context,
+	t *base.T,
+) (err error) {
+
 	// clear
 	i.originalTs = make(map[string][]base.T)
 	i.narrowTs = make(map[string][]base.T)
